@@ -141,6 +141,9 @@ func RefScalar(k Kind, base int, s string) (interface{}, Verdict) {
 		if strings.Contains(s, "!bad") {
 			return nil, Reject
 		}
+		if s == "" {
+			return Upper(""), Accept
+		}
 		return Upper("U:" + s), Accept
 	case KBool:
 		switch s {
@@ -265,6 +268,10 @@ func RefValue(k Kind, base int, texts []string) (interface{}, error) {
 
 // ValEqual is deep equality with NaN == NaN, nil and empty slices/maps
 // identified, pointers compared by pointee.
+// SignedZerosEqual makes ValEqual identify -0 and +0 (set by checks whose
+// property speaks about numbers rather than bit patterns).
+var SignedZerosEqual = false
+
 func ValEqual(a, b interface{}) bool {
 	return valEq(reflect.ValueOf(a), reflect.ValueOf(b))
 }
@@ -282,7 +289,7 @@ func valEq(a, b reflect.Value) bool {
 		if math.IsNaN(x) || math.IsNaN(y) {
 			return math.IsNaN(x) && math.IsNaN(y)
 		}
-		return x == y && math.Signbit(x) == math.Signbit(y)
+		return x == y && (SignedZerosEqual || math.Signbit(x) == math.Signbit(y))
 	case reflect.Slice:
 		if a.Len() != b.Len() {
 			return false
